@@ -45,6 +45,7 @@ pub fn gen_case(c: &mut Choices) -> Case {
     }
     let tsx = c.chance(1, 2);
     let mut opts = any_opts(c, true, tsx);
+    let bad_pragma = crate::gen::opts::maybe_invalid_pragma(c, &mut opts);
     if tsx && c.chance(3, 4) {
         opts.resolve_type = true;
     }
@@ -69,6 +70,9 @@ pub fn gen_case(c: &mut Choices) -> Case {
         case.label("resolve-type-call");
     }
     case.label(format!("lang={}", case.lang));
+    if bad_pragma {
+        case.label("option=invalid-pragma-name");
+    }
     case.nontrivial = !f.unusual.is_empty() || !f.adversarial.is_empty();
     case
 }
